@@ -81,6 +81,9 @@ COMMENTS = frozenset([
 
 PATT_LINE_TERMINATOR_SEQUENCE = re.compile(
     r'(\n|\r(?!\n)|\u2028|\u2029|\r\n)', flags=re.S)
+PATT_TOKEN_SEPARATORS = re.compile(
+    r'(?:\s|\ufeff|//[^\r\n\u2028\u2029]*|/\*[^*]*\*+(?:[^/*][^*]*\*+)*/)*',
+    flags=re.U)
 PATT_LINE_CONTINUATION = re.compile(
     r'\\(\n|\r(?!\n)|\u2028|\u2029|\r\n)', flags=re.S)
 
@@ -361,6 +364,15 @@ class Lexer(object):
     def _is_prev_token_lt(self):
         return self.cur_token_line_terminated
 
+    def _is_next_token_in(self, chars):
+        # whether the next token, past any white space, line terminators
+        # and comments, is one of the single character punctuators; an
+        # explicit ';' needs no automatic one in front of it, and a ':'
+        # makes the reserved word before it a property name.
+        match = PATT_TOKEN_SEPARATORS.match(
+            self.lexer.lexdata, self.lexer.lexpos)
+        return self.lexer.lexdata[match.end():match.end() + 1] in tuple(chars)
+
     def _read_regex(self):
         self.lexer.begin('regex')
         token = self.get_lexer_token()
@@ -422,7 +434,8 @@ class Lexer(object):
             self.line_terminator_seen = True
             if (first and self.valid_prev_token is not None
                     and self.valid_prev_token.type in [
-                        'BREAK', 'CONTINUE', 'RETURN', 'THROW']):
+                        'BREAK', 'CONTINUE', 'RETURN', 'THROW']
+                    and not self._is_next_token_in(';:')):
                 return self._create_semi_token(self.cur_token)
 
         return self.cur_token
